@@ -83,8 +83,20 @@ fn body_three_tokens_scaled_times() {
         }
         Err(_) => assert!(false),
     }
+    // a sampling rate the frame period does not divide (44100 / 220 = 200.45..): the factor is
+    // sampling_rate / (fperiod * 1e7), not (sampling_rate / fperiod) / 1e7 in integers
+    let r2 = SLabels::load_from_strings(44100, 220, &lines);
+    let rate2 = 44100 as f64 / (220 as f64 * 1e+7);
+    match &r2 {
+        Ok(l) => {
+            assert!(l.times[1].1 == 7500000.0 * rate2);
+            assert!((l.times[1].1 - 150.3409090909091).abs() < 1e-9);
+        }
+        Err(_) => assert!(false),
+    }
     kani::cover!(true);
     std::mem::forget(r);
+    std::mem::forget(r2);
     std::mem::forget(lines);
 }
 
